@@ -178,6 +178,11 @@ func (fr *Frame) escaped(key string) {
 }
 
 func (e *Exec) flow(fr *Frame, cur *State, from, to *ssa.BasicBlock, st *State, incoming map[*ssa.BasicBlock][]edge) {
+	for h, li := range fr.loops {
+		if li.noBreak && li.body[from] && !li.body[to] && from != h {
+			e.oblige(st, "full-loop", li.key+":left-before-the-end", Not(st.pc), e.posOf(from.Instrs[len(from.Instrs)-1]))
+		}
+	}
 	if to.Dominates(from) {
 		e.backEdge(fr, from, to, st)
 		return
@@ -757,6 +762,7 @@ func (e *Exec) typeAssert(fr *Frame, st *State, x *ssa.TypeAssert) (Value, bool)
 			val = Ite(ok, xv, &Term{"nil-obj", SObj})
 		} else {
 			val = e.unboxGuarded(xv, x.AssertedType, And(st.pc, ok), ok)
+			e.assumeUnboxedExists(st, val, And(st.pc, ok))
 		}
 		return &Tuple{Vs: []Value{val, ok}}, true
 	}
@@ -765,7 +771,16 @@ func (e *Exec) typeAssert(fr *Frame, st *State, x *ssa.TypeAssert) (Value, bool)
 	if isIface {
 		return xv, true
 	}
-	return e.unbox(xv, x.AssertedType, st.pc), true
+	v := e.unbox(xv, x.AssertedType, st.pc)
+	e.assumeUnboxedExists(st, v, st.pc)
+	return v, true
+}
+
+// assumeUnboxedExists: a slice / pointer held by an existing object was allocated before now.
+func (e *Exec) assumeUnboxedExists(st *State, v Value, pc *Term) {
+	if t, ok := v.(*Term); ok && t.Sort == SSl {
+		e.assume(pc, Lt(App(SInt, "sl-id", t), e.heapRead(st, "$alloc", SInt)))
+	}
 }
 
 // unboxGuarded: payload when ok, zero value otherwise.
@@ -1010,6 +1025,19 @@ func capturedOnly(x *ssa.Alloc) bool {
 
 // onStore checks the contract's on-store assertions for a store to a struct field.
 func (e *Exec) onStore(fr *Frame, st *State, x *ssa.Store, c *Contract) {
+	if rc := e.contractOf(e.Root); rc != nil && len(rc.NoStores) > 0 {
+		if fa, ok := x.Addr.(*ssa.FieldAddr); ok {
+			if stt := derefStruct(fa.X.Type()); stt != nil {
+				fname := stt.s.Field(fa.Field).Name()
+				for _, ns := range rc.NoStores {
+					if ns == fname || ns == stt.name+"."+fname {
+						e.noStoreHit[ns] = true
+						e.oblige(st, "no-store", ns, Not(st.pc), e.posOf(x))
+					}
+				}
+			}
+		}
+	}
 	if c == nil || len(c.OnStores) == 0 || fr.parent != nil {
 		return
 	}
